@@ -56,5 +56,5 @@ def gen_c20_random(rnd, tier):
             nv[new] = vpos[old]
         faces = [[perm[i] for i in f] for f in faces]
         out.append({'m': 'flatten', 'op': 'flatten', 'wd': 8000, 'mesh': {'name': 'rgrid', 'planar': not curved, 'vpos': nv, 'faces': faces},
-                    'T': _pose(rnd), 'T2': _pose(rnd), 'disk': True})
+                    'T': _pose(rnd), 'T2': _pose(rnd), 'disk': True, 'sc': rnd.choice((0, 0, -17, -9, 10))})
     return out
